@@ -88,6 +88,12 @@ def histories_check(chk, fails, stats):
     texts += ["save [USD/2 10] from 1/0\n", "set_account_meta(99999999999999999999999, \"k\", 42)\n",
               "send [USD *] (\n  source = { @a @world @a }\n  destination = @b\n)\n",
               "vars { monetary $m monetary $m }\nsend $m + @a (source = $zz destination = $zz)\n"]
+    # built-ins in their place and, in the same or another document, calls of the same names out of place (a statement
+    # function as an origin, an origin function as a statement): what a hover shows depends on the call hovered, not
+    # on what was hovered before
+    texts += ['vars { monetary $m = balance(@a, USD) }\nset_tx_meta("k", $m)\nbalance(@a, USD)\nmeta(@a, "k")\n',
+              'vars { monetary $m = set_tx_meta("k", 1) }\nset_tx_meta("k", $m)\noverdraft(@a, USD)\n',
+              'set_account_meta(@a, "k", 1)\nbalance(@b, COIN)\n', 'vars { string $s = meta(@a, "k") number $n = set_account_meta(@a, "k", 2) }\nset_tx_meta("s", $s)\nset_tx_meta("n", $n)\n']
     for i in range(6):
         c, g = gen_check.valid_script(chk.seed + 303, i, {"stmts_max": 2, "depth": 2})
         for fn in (gen_check.name_edit, gen_check.type_edit):
@@ -111,6 +117,15 @@ def histories_check(chk, fails, stats):
     stats["exhaustive_histories"] = len(histories)
     for _ in range(chk.size(300, 5000)):
         histories.append([rng.choice(alphabet[:12]) if rng.random() < 0.35 else rng.choice(alphabet) for _ in range(rng.randrange(4, 25))])
+    # directed: every built-in name of one document hovered, then every one of another (and back)
+    fn_texts = [t for t in texts if re.search(r"\b(balance|meta|overdraft|set_tx_meta|set_account_meta)\(", t) and len(t) < 400][:8]
+    for ta in fn_texts[:5]:
+        for tb in fn_texts[:5]:
+            h = [("open_t", 0, ta), ("open_t", 1, tb)]
+            for (u, t) in ((0, ta), (1, tb), (0, ta)):
+                for mm in re.finditer(r"\b(set_tx_meta|set_account_meta|meta|balance|overdraft)\(", t):
+                    h.append(("hover_p", u, list(gen_check.line_col(t, mm.start(1) + 1))))
+            histories.append(h)
     base_texts = texts[:3] if True else texts
     jobs, plans = [], []
     for hi, h in enumerate(histories):
@@ -119,6 +134,15 @@ def histories_check(chk, fails, stats):
         pair = URI_PAIRS[hi % len(URI_PAIRS)]
         for op in h:
             uri = pair[op[1]]
+            if op[0] == "open_t":
+                latest[uri] = op[2]
+                reqs.append(req_open(uri, op[2]))
+                plan.append(("open", uri, op[2], None))
+                continue
+            if op[0] == "hover_p":
+                reqs.append(req_hover(uri, op[2]))
+                plan.append(("hover", uri, latest.get(uri), op[2]))
+                continue
             if op[0] in ("open", "change"):
                 t = rng.choice(texts) if len(h) > L else base_texts[op[2]]
                 latest[uri] = t
@@ -129,7 +153,10 @@ def histories_check(chk, fails, stats):
                 pos = [0, 0]
                 if t is not None:
                     uses = gen_check.scan_vars(t)[1]
-                    if uses and rng.random() < 0.8:
+                    fnpos = [mm.start(1) + 1 for mm in re.finditer(r"\b(set_tx_meta|set_account_meta|meta|balance|overdraft)\(", t)]
+                    if fnpos and rng.random() < 0.4:
+                        pos = list(gen_check.line_col(t, rng.choice(fnpos)))
+                    elif uses and rng.random() < 0.8:
                         u = rng.choice(uses)
                         pos = list(gen_check.line_col(t, u["start"] + 1))
                     else:
